@@ -124,7 +124,7 @@ def cases(rng, tier):
                     tok = "ecall,0,0,0,0,0" if op == "ecall" else "ebreak,0,0,0,1,0"
                 prog = ["addi,0,0,0,0,0", tok]
                 mode = "five" if (csr + regs[0]) % 2 else "single"
-                lines = [f"sim.new {mode} 1 - lru,0,1,1,0", "sim.prog " + " ".join(prog), "sim.snap"]
+                lines = [f"sim.new {mode} 1 - lru,0,1,1,0", "sim.prog " + " ".join(prog), "sim.snap", "sim.listingtext"]
                 yield Case("views", lines, None, {"tok": tok, "addr": 4, "prog": prog, "mode": mode})
     # listing fix-point
     for _ in range(60 if tier == "quick" else 1000):
@@ -149,9 +149,9 @@ def view_case(rng, op, regs=None, zero_imm=False, wide=False, mode=None):
     prog = ["addi,0,0,0,0,0"] * k + [tok] + ["addi,0,0,0,0,0"] * 2
     mode = mode or rng.choice(["five", "single"])
     ispec = rng.choice(["-", "lru,0,1,1,0", "plru,1,2,2,0"])
-    lines = [f"sim.new {mode} 1 - {ispec}", "sim.prog " + " ".join(prog), "sim.reg 2 16384", "sim.snap"]
+    lines = [f"sim.new {mode} 1 - {ispec}", "sim.prog " + " ".join(prog), "sim.reg 2 16384", "sim.snap", "sim.listingtext"]
     for _ in range(k + 2):
-        lines += ["sim.step", "sim.snap"]
+        lines += ["sim.step", "sim.snap", "sim.listingtext"]
     return Case("views", lines, None, {"tok": tok, "addr": addr, "prog": prog, "mode": mode})
 
 
